@@ -24,7 +24,10 @@ Publish == \E r \in {"pull", "fan"}, n \in {1, 3} : Step([op |-> "publish", rout
 Dequeue == stored > 0 /\ Step([op |-> "dequeue", batch |-> 2]) /\ held' = held + 1 /\ UNCHANGED stored
 Settle  == held > 0 /\ \E k \in {"ack", "nack", "dead"} : Step([op |-> k])
            /\ held' = held - 1 /\ UNCHANGED stored
+\* the batch forms (lease_ids) settle everything that is held
+SettleB == held > 0 /\ \E k \in {"ack_batch", "nack_batch", "dead_batch"} : Step([op |-> k])
+           /\ held' = 0 /\ UNCHANGED stored
 
-Next == Ingress \/ Publish \/ Dequeue \/ Settle
+Next == Ingress \/ Publish \/ Dequeue \/ Settle \/ SettleB
 Spec == Init /\ [][Next]_vars
 =============================================================================
